@@ -592,6 +592,7 @@ fn run_task(j: &JobData, w: u8, sim: Option<Arc<Sim>>, record_sites: bool) -> Ta
                 Env { cm: &cm, comments, file_name: format!("task{}.{}", j.task_idx, if j.task.ts { "tsx" } else { "jsx" }) },
                 &j.task.src,
                 j.task.ts,
+                j.task.script,
                 opts,
                 &j.task.noise,
             )
